@@ -677,5 +677,6 @@ func checkPairwiseLoops(c *Ctx, p *core.Prog, fns []*ssa.Function) {
 		}
 	}
 	c.R.Count("R10.9:loops over a list nested in a loop over the same list", n)
-	c.R.RequireMin("R10.9", "loops over a list nested in a loop over the same list", n, 1)
+	// (no floor: the ideal number of such loops is zero; on the current tree the rule's positive example is known finding D49)
+	c.R.OK("R10.9", "v2: loops over a list nested in a loop over the same list were looked for", v2pkg, fmt.Sprintf("%d found", n))
 }
